@@ -128,6 +128,7 @@ func runC03(w *World, r *Report) {
 	r.Rule("R-C03-1", "numeric universe coverage: the type switch of each arithmetic / comparison / coercion routine has a case for every type of the universe the language defines for it", 400)
 	r.Rule("R-C03-2", "case/type agreement: inside `case T` (T numeric) of those routines every assertion to a numeric type asserts T, and every numeric value pushed or stored has static type T (comparisons push bool)", 300)
 	r.Rule("R-C03-3", "strict flag: a data.Normalize call in package bytecode that passes a variable constness flag passes the run-time strict flag, or lies on the not-strict edge", 5)
+	c03IsNumericAgrees(w, r)
 	r.Rule("R-C03-4", "++ and -- add an untyped constant: the Push that feeds the auto-increment opcode carries data.Constant(1)", 4)
 
 	dp := w.pkg("internal/language/data")
